@@ -98,21 +98,33 @@ pub fn run(seed: u64, rounds: u64) -> StressOut {
 
     // C: fresh-key stores and deletes from many threads: the accounting equals the content at rest
     let mut c_rounds = 0;
-    for round in 0..(rounds / 20).max(3) {
+    for round in 0..(rounds / 10).max(5) {
         let clock = Arc::new(Clock(AtomicU64::new(0)));
         let inner = Arc::new(MemoryStore::new(clock.clone()));
         let pol = Arc::new(RandomPolicy::new(inner.clone(), 1 << 40));
-        let barrier = Arc::new(Barrier::new(nthreads));
-        let hs: Vec<_> = (0..nthreads)
+        let nt = 12usize;
+        let barrier = Arc::new(Barrier::new(nt));
+        let hs: Vec<_> = (0..nt)
             .map(|i| {
                 let (pol, barrier) = (pol.clone(), barrier.clone());
                 std::thread::spawn(move || {
                     barrier.wait();
-                    for j in 0..60 {
+                    for j in 0..80 {
                         let _ = pol.set(key(&format!("t{}-{}", i, j)), Record::new(key("0123456789"), 0, 0, 0));
                     }
-                    for j in 0..50 {
+                    // all threads turn to deleting at the same moment: the decrements contend
+                    barrier.wait();
+                    for j in 0..70 {
                         let _ = pol.delete(key(&format!("t{}-{}", i, j)), CacheMetaData::new(0, 0, 0));
+                    }
+                    // and a mixed phase: stores of new fresh keys against deletes
+                    barrier.wait();
+                    for j in 80..110 {
+                        if (i + j) % 2 == 0 {
+                            let _ = pol.set(key(&format!("t{}-{}", i, j)), Record::new(key("abc"), 0, 0, 0));
+                        } else {
+                            let _ = pol.delete(key(&format!("t{}-{}", i, j - 10)), CacheMetaData::new(0, 0, 0));
+                        }
                     }
                 })
             })
@@ -124,11 +136,99 @@ pub fn run(seed: u64, rounds: u64) -> StressOut {
         let stored = crate::sut::Sut::records_of(&inner).iter().map(|(_, r)| 24 + r.value.len() as u64).sum::<u64>();
         let usage = pol.verif_usage();
         if usage != stored {
-            out.violations.push((vec!["C15", "C14"], format!("after {} threads stored 60 fresh keys each and deleted 50 of them, the accounted usage is {} but {} bytes are stored (round {})", nthreads, usage, stored, round)));
+            out.violations.push((vec!["C15", "C14"], format!("after {} threads stored fresh keys and deleted most of them concurrently (no overwrite, no flush, no expiry), the accounted usage is {} but {} bytes are stored (round {})", nt, usage, stored, round)));
             break;
         }
     }
     out.kinds.push(("accounting-at-rest".into(), c_rounds));
-    out.rounds = a_rounds + b_rounds + c_rounds;
+    // D: CAS-guarded read-modify-write: of N concurrent appends carrying the item's current CAS exactly one
+    // succeeds and the final value holds exactly its suffix
+    let mut d_rounds = 0;
+    for round in 0..rounds / 2 {
+        let clock = Arc::new(Clock(AtomicU64::new(0)));
+        let store = Arc::new(MemoryStore::new(clock.clone()));
+        let memc = Arc::new(memcrs::memcache::store::MemcStore::new(store.clone()));
+        let k = key("k");
+        let tok = memc.set(k.clone(), Record::new(key("base"), 0, 5, 0)).unwrap().cas;
+        let wins = Arc::new(AtomicUsize::new(0));
+        let barrier = Arc::new(Barrier::new(nthreads));
+        let hs: Vec<_> = (0..nthreads)
+            .map(|i| {
+                let (memc, k, wins, barrier) = (memc.clone(), k.clone(), wins.clone(), barrier.clone());
+                std::thread::spawn(move || {
+                    barrier.wait();
+                    if memc.append(k, Record::new(key(&format!("-{}", i)), tok, 0, 0)).is_ok() {
+                        wins.fetch_add(1, Ordering::SeqCst);
+                    }
+                })
+            })
+            .collect();
+        for h in hs {
+            let _ = h.join();
+        }
+        d_rounds += 1;
+        let w = wins.load(Ordering::SeqCst);
+        let val = crate::sut::Sut::records_of(&store).first().map(|(_, r)| r.value.clone()).unwrap_or_default();
+        if w != 1 || val.len() != 6 {
+            out.violations.push((vec!["C04", "C03"], format!("{} of {} concurrent appends carrying the item's current CAS {} were acknowledged; final value {:?} (round {})", w, nthreads, tok, String::from_utf8_lossy(&val), round)));
+            break;
+        }
+    }
+    out.kinds.push(("cas-guarded-append".into(), d_rounds));
+
+    // E: a delete carrying a stale CAS never removes a newer version: after its own acknowledged store a
+    // writer must find its item, however many stale deletes race with it
+    let mut e_rounds = 0;
+    {
+        // deleters read the item, then delete it conditionally on the CAS they saw, while a writer keeps
+        // overwriting it: a conditional delete may only ever remove the version whose CAS it carries
+        let iters = (rounds * 40) as usize;
+        let clock = Arc::new(Clock(AtomicU64::new(0)));
+        let store = Arc::new(MemoryStore::new(clock.clone()));
+        let k = key("k");
+        store.set(k.clone(), Record::new(key("v1"), 0, 0, 0)).unwrap();
+        let barrier = Arc::new(Barrier::new(5));
+        let wrong = Arc::new(std::sync::Mutex::new(None::<(u64, u64)>));
+        let stop = Arc::new(std::sync::atomic::AtomicBool::new(false));
+        let mut hs = vec![];
+        for _ in 0..4 {
+            let (store, k, barrier, stop, wrong) = (store.clone(), k.clone(), barrier.clone(), stop.clone(), wrong.clone());
+            hs.push(std::thread::spawn(move || {
+                barrier.wait();
+                while !stop.load(Ordering::Relaxed) {
+                    if let Ok(r) = store.get(&k) {
+                        let t = r.verif_view().1;
+                        if let Ok(removed) = store.delete(k.clone(), CacheMetaData::new(t, 0, 0)) {
+                            let rc = removed.verif_view().1;
+                            if rc != t {
+                                *wrong.lock().unwrap() = Some((t, rc));
+                                break;
+                            }
+                        }
+                    }
+                }
+            }));
+        }
+        {
+            let (store, k, barrier, stop) = (store.clone(), k.clone(), barrier.clone(), stop.clone());
+            hs.push(std::thread::spawn(move || {
+                barrier.wait();
+                for j in 0..iters {
+                    let _ = store.set(k.clone(), Record::new(key(&format!("w{}", j)), 0, 0, 0));
+                }
+                stop.store(true, Ordering::Relaxed);
+            }));
+        }
+        for h in hs {
+            let _ = h.join();
+        }
+        e_rounds += iters as u64;
+        let w = *wrong.lock().unwrap();
+        if let Some((t, rc)) = w {
+            out.violations.push((vec!["C03", "C08"], format!("a delete carrying CAS {} removed a newer version of the item (CAS {}) that a concurrent store had just acknowledged", t, rc)));
+        }
+    }
+    out.kinds.push(("stale-cas-delete".into(), e_rounds));
+    out.rounds = a_rounds + b_rounds + c_rounds + d_rounds + e_rounds;
     out
 }
